@@ -41,7 +41,7 @@ func (e *ex) doWStart(id, hx, pS string) core.Result {
 	cs, ok := e.conns[id]
 	data, ok2 := core.Unhex(hx)
 	p, err := strconv.Atoi(pS)
-	if !ok || !ok2 || err != nil || p < 0 || len(data) == 0 || cs.closed || cs.pend != nil || cs.client != nil || e.nParked > 0 {
+	if !ok || !ok2 || err != nil || p < 0 || len(data) == 0 || cs.closed || cs.pend != nil || cs.client != nil || e.nParked > 0 || cs.rec.armed {
 		return core.Result{Impl: "bad-op"}
 	}
 	theHook.take()
